@@ -32,6 +32,8 @@ import Proofs.FitInv
 import Proofs.FitInStep
 import Proofs.FitCoherent
 import Proofs.FitValid
+import Proofs.FitPayload
+import Proofs.FitAround
 import Proofs.JoinSuccess
 import Proofs.Placement
 import Props.C01
@@ -1208,40 +1210,46 @@ theorem fit_emits_wf (S : Schema) (hdet : detB S = true) (hfill : S.fillersOKB =
   subst hst
   exact aroundShape_of F T G1 G2 sl' ins b hw h1 h2 h3
 
-/-! ### payload validity and no-raise: the statements aimed at, and the invariant they need (not proved)
+/-! ### payload validity and no-raise: what is proved, the statements aimed at, and the invariants behind them
 
-FULL STATEMENTS AIMED AT:
-`fit_emits_valid_payload` : hypotheses of `fit_emits_wf` → closed nodes of the request slice valid →
-  `openValid S sl'.openStart sl'.openEnd sl'.content` for the emitted slice `sl'` (every node the Fitter
-  closed is valid, the nodes still open carry canonical marks);
+PROVED (this section):
+* `delete_emits_valid_payload`, `deleteRange_emits_valid_payload` — deletions: the emitted slice is `openValid`;
+  `delete_emits_payloadValid` — also `C01.PayloadValid` of a deletion's replace-around answer (the slice with the gap
+  content in place), with `delete_around_is_move` (`insert = 0`, gap `[to, to.end())`, no structure flag);
+* `insertInline_emits_valid_payload` — closed slices of valid leaf / text nodes (typing, `insert`, `replace_with` of inline
+  content): the loop places nodes, possibly inside wrappers; invariant `VInv` (Proofs/FitPayload.lean), `payloadInv_step`;
+* `fit_emits_valid_payload_of_inv` — **every** request: payload validity from the decidable invariant
+  `FitState.validB` (PM/FitGuards.lean) at the end of the loop (`fitEndInv`); `close` is handled in general
+  (`closeFit_vinv`, with `closeLevel_move_depth`: `close` continues at a position that is at least as deep as the close level);
+* `fit_around_shape`, `fit_around_gap_valid` — every replace-around answer: gap `[to, to.end())`, a closed slice of valid
+  nodes of the document, structure flag not set.
+
+FULL STATEMENTS AIMED AT (not proved):
+`fit_emits_valid_payload` : hypotheses of `fit_emits_wf` → `closableB` → the request slice cut from a valid document (closed
+  nodes valid, the children of its spine nodes carrying marks their parent allows) →
+  `openValid S sl'.openStart sl'.openEnd sl'.content` for the emitted slice `sl'`;
 `fit_no_raise` : … `→ sl.noPartialNode S → replaceStep S doc f t sl ≠ .error .raises`, and with
   `fitLoop_terminates` the total `replaceStep_total`.
+What is missing for the first is the invariance of `VInv` / `validB` under `place_nodes` when the unplaced slice is open:
+the validity of `close_node_start`'s results (fill prefix + children accepted; needs the request slice's validity carried
+along the unplaced slice through `drop_from_fragment` / `open_more`) and `LevelR` for the levels `place_nodes` pushes for
+the open end (`pushOpenEnd`; their coherence is `pushOpenEnd_coh`).  The driver evaluates `validB` after **every** iteration of
+every generated request (op `fitEmit`, counter "validity invariant after every iteration"): true on all runs (about 4 900
+runs of the loop per seed, closed and open slices, bundled-family and random schemas), and the tie checks the real step's
+payload with the independent validator whenever the hypotheses of `fit_emits_valid_payload_of_inv` hold.
 
-The invariant both need is `FitState.coherentB` (PM/Fitter.lean, decidable): walking the last-child
-chain of `placed`, `frontier[i].ty` is the type of the node open at level `i` and `frontier[i].match` is
-the state of that type's automaton after the children counted there — from the state
-`Fitter.__init__` computed for the levels whose open node is still the document's (a prefix `i ≤ g`
-of the frontier; for `i < depth(from)` the first child, which that state already counts, is skipped),
-from the start state over all children for the levels the Fitter opened.  It is evaluated by the driver
-after every iteration of every generated request (op `fitEmit`, counter "frontier coherent with placed
-over the loop"): true on all bundled-family runs and on all runs of a random-schema search
-(about 6 200 + 4 400 runs of the loop).  A first formulation without the ghost level `g` was refuted by that
-search at once (a level closed and re-opened by `place_nodes` counts from the start state again).
-With it: `close_frontier_node`'s `fill_before(…, True)` runs from the state after the real children, so the
-closed node's content is accepted (`fillBeforeTypes_exact`) — validity of closed nodes; and
-`content_match_at(child_count)` on the re-opened node of `place_nodes` is `run 0 (types kids)`, which
-succeeds exactly when the node is not a partial node (`Slice.noPartialNode`).  `coherentB` IS an
-invariant of the loop: `coherent_invariant` below (Proofs/FitCoherent.lean).  Payload validity is PROVED FOR
-DELETIONS (`delete_emits_valid_payload`, `deleteRange_emits_valid_payload` below; Proofs/FitValid.lean:
-fillers valid, the chain of the document's nodes `PureV`, `closeFit_valid` = closing + the close level's
-filling + the re-opening loop `openValid_open`, the final `while`).  For slices that are placed the
-pieces in place are: a Fitter-opened node is accepted when it is closed (`levelOK_close_accepts`: coherent
-match + `fillBeforeTypes_sound`), mark filtering keeps validity (`checkNode_withMarks_allowed`,
-`allowsMarks_allowedMarks`, `canonicalMarks_allowedMarks`); still missing: `closeNodeStart`'s own validity for
-start-open nodes (fill prefix + children accepted; needs the request slice's `openValid` carried along the
-unplaced slice through `drop_from_fragment` / `open_more`), the per-level bookkeeping "all closed
-children valid, marks allowed by the level's type" next to `Coh`, and the assembly of `openValid` at the
-end; then `fit_no_raise` (its raise sites become unreachable from the same invariants). -/
+The two invariants: `FitState.coherentB` (PM/Fitter.lean; `coherent_invariant` below, Proofs/FitCoherent.lean) — walking the
+last-child chain of `placed`, `frontier[i].ty` is the type of the node open at level `i` and `frontier[i].match` is the state of
+that type's automaton after the children counted there (from the state `Fitter.__init__` computed for the levels `i ≤ g`
+whose open node is still the document's, from the start state over all children for the levels the Fitter opened; a first
+formulation without the ghost level `g` was refuted by the random-schema search: a level closed and re-opened by
+`place_nodes` counts from the start state again).  And `FitState.validB` / `VInv` — the same walk, recording validity:
+below `g` single nodes with canonical marks (`PureV`), at `g` closed children valid up to the document's start spine
+(`leftOpenValid`), above `g` valid closed children, marks allowed by the level's type, the match = the run from the start
+state (`LevelR`); `close_frontier_node`'s `fill_before(…, True)` then completes a level above `g` to valid content
+(`close_top_valid`: `fillBeforeTypes_sound` + `closableB`), and a level `≤ g` stays on the start spine, where only canonical
+marks are asked.  `content_match_at(child_count)` on the re-opened node of `place_nodes` is `run 0 (types kids)`, which
+succeeds exactly when the node is not a partial node (`Slice.noPartialNode`) — the raise site `fit_no_raise` has to exclude. -/
 
 /-- **`delete_emits_valid_payload`** — the payload of every step `replace_step` emits for a deletion on a
     valid document is valid in the sense of C01 (`openValid`, Proofs/ReplaceValid.lean): every node off the
@@ -1267,6 +1275,213 @@ theorem deleteRange_emits_valid_payload (S : Schema) (hdet : detB S = true) (hle
   split at h
   · simp [throw, throwThe, MonadExceptOf.throw] at h
   · exact delete_emits_valid_payload S hdet hleaf doc _ _ hv hattrs st h
+
+/-- **`fit_around_shape`** — every replace-around answer of `replace_step`, whatever the request: it starts at `from`,
+    its gap is `[to, to.end())` — the rest of the parent of `to` — and the structure flag is not set -/
+theorem fit_around_shape (S : Schema) (doc : Node) (f t : Nat) (req : Slice) (F T G1 G2 : Nat) (sl : Slice)
+    (ins : Nat) (b : Bool) (h : replaceStep S doc f t req = .ok (some (.replaceAround F T G1 G2 sl ins b))) :
+    b = false ∧ F = f ∧ ∃ rt, doc.resolve t = some rt ∧ G1 = rt.pos ∧ G2 = rt.end_ rt.depth :=
+  replaceStep_around_shape S doc f t req F T G1 G2 sl ins b h
+
+/-- … and on a valid document that gap is a closed slice of valid nodes: what `Slice.insert_at` puts into the
+    slice when the step is applied -/
+theorem fit_around_gap_valid (S : Schema) (doc : Node) (f t : Nat) (req : Slice) (hv : C01.Valid S doc)
+    (F T G1 G2 : Nat) (sl : Slice) (ins : Nat) (b : Bool)
+    (h : replaceStep S doc f t req = .ok (some (.replaceAround F T G1 G2 sl ins b))) (gap : Slice)
+    (hg : doc.slice G1 G2 = .ok gap) : S.checkKids gap.content = true := by
+  obtain ⟨_, _, rt, hrt, e1, e2⟩ := replaceStep_around_shape S doc f t req F T G1 G2 sl ins b h
+  subst e1; subst e2
+  exact gap_to_end_valid S hrt hv gap hg
+
+/-- **`delete_around_is_move`** — a replace-around answer of `replace_step` for a deletion moves the rest of the
+    textblock of `to` behind `from`: `insert = 0` (nothing is placed in front of the gap), the gap is
+    `[to, to.end())`, the structure flag is not set -/
+theorem delete_around_is_move (S : Schema) (doc : Node) (f t : Nat) (hv : C01.Valid S doc)
+    (F T G1 G2 : Nat) (sl : Slice) (ins : Nat) (b : Bool)
+    (h : replaceStep S doc f t Slice.empty = .ok (some (.replaceAround F T G1 G2 sl ins b))) :
+    ins = 0 ∧ b = false ∧ ∃ rt, doc.resolve t = some rt ∧ G1 = rt.pos ∧ G2 = rt.end_ rt.depth :=
+  delete_around_shape S doc f t hv F T G1 G2 sl ins b h
+
+/-- **`delete_emits_payloadValid`** — *every* step `replace_step` emits for a deletion on a valid document has a
+    valid payload in the sense of C01 (`C01.PayloadValid`), the replace-around answers included: there the
+    payload is the slice *with the gap content in place* (`Slice.insert_at(insert, gap)`); the gap
+    `[to, to.end())` is a closed slice of valid nodes of the document (`gap_to_end_valid`: the prefix balance of
+    the document's tokens inside the parent's content window never drops below the parent's depth), it goes
+    in at position 0 — the start of the innermost node of the slice's open start spine — and valid closed
+    nodes in front of a valid payload leave it valid (`insertAt_zero_openValid`, Proofs/FitAround.lean). -/
+theorem delete_emits_payloadValid (S : Schema) (hdet : detB S = true) (hleaf : PM.FromDom.leafOkB S = true)
+    (doc : Node) (f t : Nat) (hv : C01.Valid S doc) (hattrs : S.nodeAttrsOK doc = true) (st : Step)
+    (h : replaceStep S doc f t Slice.empty = .ok (some st)) : C01.PayloadValid S doc st := by
+  obtain ⟨sl', hs, hval⟩ := delete_emits_valid_payload S hdet hleaf doc f t hv hattrs st h
+  cases st with
+  | replace F T sl b =>
+    simp only [Step.sliceOf, Option.some.injEq] at hs
+    subst hs
+    exact hval
+  | replaceAround F T G1 G2 sl ins b =>
+    exact delete_around_payload S (detS_of_detB S hdet) (PM.FromDom.leafOk_of_B S hleaf) doc f t hv hattrs
+      F T G1 G2 sl ins b h
+  | addMark _ _ _ => simp [Step.sliceOf] at hs
+  | removeMark _ _ _ => simp [Step.sliceOf] at hs
+  | attr _ _ _ => simp [Step.sliceOf] at hs
+  | docAttr _ _ => simp [Step.sliceOf] at hs
+  | addNodeMark _ _ => simp [Step.sliceOf] at hs
+  | removeNodeMark _ _ => simp [Step.sliceOf] at hs
+
+/-- … and so has the step `Transform.delete_range` records -/
+theorem deleteRange_emits_payloadValid (S : Schema) (hdet : detB S = true) (hleaf : PM.FromDom.leafOkB S = true)
+    (doc : Node) (f t : Nat) (hv : C01.Valid S doc) (hattrs : S.nodeAttrsOK doc = true) (st : Step)
+    (h : deleteRangeStep S doc f t = .ok (some st)) : C01.PayloadValid S doc st := by
+  unfold deleteRangeStep at h
+  split at h
+  · simp [throw, throwThe, MonadExceptOf.throw] at h
+  · exact delete_emits_payloadValid S hdet hleaf doc _ _ hv hattrs st h
+
+/-- the statement is not vacuous: deleting `[3, 8)` of `doc(blockquote(p("ab")), p("cd"))` — from inside the quoted
+    paragraph to inside the second one — is answered with a replace-around step that moves `"d"` behind `"a"`
+    (`insert = 0`, gap `[8, 9)`, slice `<blockquote(p())>(2,0)`) -/
+example :
+    let nt (name : String) (isText inl : Bool) (dfa : Array DfaState) : NodeType :=
+      { name := name, isText := isText, isInline := isText, isLeaf := isText, isAtom := isText,
+        inlineContent := inl, isolating := false, defining := false, code := false,
+        dfa := dfa, markSet := none, attrs := [] }
+    let S : Schema := { nodes := #[nt "doc" false false #[⟨false, [(1, 1), (3, 1)]⟩, ⟨true, [(1, 1), (3, 1)]⟩],
+                                   nt "paragraph" false true #[⟨true, [(2, 0)]⟩],
+                                   nt "text" true false #[⟨true, []⟩],
+                                   nt "blockquote" false false #[⟨false, [(1, 1), (3, 1)]⟩, ⟨true, [(1, 1), (3, 1)]⟩]],
+                        marks := #[], top := 0, textTy := 2 }
+    let doc := Node.elem 0 [] [] [.elem 3 [] [] [.elem 1 [] [] [.text [97, 98] []]], .elem 1 [] [] [.text [99, 100] []]]
+    detB S = true ∧ PM.FromDom.leafOkB S = true ∧ S.checkNode doc = true ∧ S.nodeAttrsOK doc = true ∧
+    (match replaceStep S doc 3 8 Slice.empty with
+     | .ok (some (.replaceAround 3 10 8 9 sl 0 false)) => sl == ⟨[.elem 3 [] [] [.elem 1 [] [] []]], 2, 0⟩
+     | _ => false) = true := by decide +kernel
+
+/-- **`insertInline_emits_valid_payload`** — the payload of every step `replace_step` emits for a closed slice of
+    valid leaf / text nodes (typing, `insert`, `replace_with` of inline content: `Slice.inlineLeaves`, content
+    `Node.check`-valid) on a valid document is valid in the sense of C01 (`openValid`).  Here the loop of `fit`
+    does place nodes, possibly inside wrapper nodes pass 2 of `find_fittable` opens; the invariant
+    (`VInv`, Proofs/FitPayload.lean) next to `FitLoopInv`: below a ghost level `g`, `placed` is the chain of the
+    document's nodes; from `g` on every level has valid closed children, an open last child with canonical
+    marks, and — for levels the Fitter opened — children whose marks the level's type allows
+    (`place_nodes` filters with `allowed_marks`, `checkNode_withMarks_allowed`) and a match that is the state
+    of the type's automaton after all of them, so that `close_frontier_node`'s `fill_before(…, True)` completes
+    the node to valid content.  One more decidable hypothesis on the schema, `Schema.closableB`
+    (PM/FitGuards.lean): that filling is never `None` (the code skips it silently when it is — the closed
+    wrapper would then stay short of a valid end; also upstream).  With `insertInline_emits_wf` and
+    `insertInline_total`: typing / inserting leaves always hands `Step.apply` a well-formed valid payload. -/
+theorem insertInline_emits_valid_payload (S : Schema) (hdet : detB S = true) (hfill : S.fillersOKB = true)
+    (hwrap : S.wrapOKB = true) (hlab : S.labelsOKB = true) (hleaf : PM.FromDom.leafOkB S = true)
+    (hts : textStableC S = true) (hcl : S.closableB = true) (doc : Node) (f t : Nat) (sl : Slice)
+    (hsl : sl.inlineLeaves S = true) (hslv : sl.closedValid S = true) (hv : C01.Valid S doc)
+    (hattrs : S.nodeAttrsOK doc = true) (st : Step) (h : replaceStep S doc f t sl = .ok (some st)) :
+    ∃ sl', st.sliceOf = some sl' ∧ openValid S sl'.openStart sl'.openEnd sl'.content = true :=
+  replaceStep_inline_valid S (detS_of_detB S hdet) (fillersOK_of_B S hfill) (wrapOK_of_B S hwrap) (labelsOK_of_B S hlab)
+    (PM.FromDom.leafOk_of_B S hleaf) (textStableP_of_C S hts) (closable_of_B S hcl) doc f t sl hsl hslv hv hattrs st h
+
+/-- the invariant behind it: one iteration of the loop on a closed slice of valid leaf nodes goes through and
+    keeps `FitLoopInv`, the validity invariant `VInv` (for some ghost level) and the validity of what is unplaced -/
+theorem payloadInv_step (S : Schema) (hdet : detB S = true) (hfill : S.fillersOKB = true)
+    (hwrap : S.wrapOKB = true) (hlab : S.labelsOKB = true) (hleaf : PM.FromDom.leafOkB S = true)
+    (hts : textStableC S = true) (hcl : S.closableB = true) (D g : Nat) (st : FitState)
+    (inv : FitLoopInv S D st) (hv : VInv S D g st.frontier st.placed)
+    (hu : ∀ n ∈ st.unplaced.content, S.checkNode n = true) :
+    ∃ st' g', fitStep S st = .ok st' ∧ FitLoopInv S D st' ∧ VInv S D g' st'.frontier st'.placed ∧
+      (∀ n ∈ st'.unplaced.content, S.checkNode n = true) :=
+  fitStep_ok_vinv S (detS_of_detB S hdet) (fillersOK_of_B S hfill) (wrapOK_of_B S hwrap) (labelsOK_of_B S hlab)
+    (PM.FromDom.leafOk_of_B S hleaf) (textStableP_of_C S hts) (closable_of_B S hcl) D g st inv hv hu
+
+/-- where `close` continues from lies at least as deep as the close level (`find_close_level`'s `move`):
+    the position after a node whose end the target is tight against resolves at that node's parent -/
+theorem closeLevel_move_depth (S : Schema) (doc : Node) (t : Nat) (rt : RPos) (ht : doc.resolve t = some rt)
+    (fr : List FItem) (lv : CloseLevel) (h : findCloseLevel S doc rt fr = .ok (some lv)) :
+    lv.depth ≤ lv.move.depth :=
+  findCloseLevelLoop_move_depth S ht fr (min (fr.length - 1) rt.depth + 1) lv (by omega) h
+
+/-- the hypotheses are satisfiable on a run that opens a wrapper and closes it again: typing `"x"` between the
+    two paragraphs of `doc(p("ab"), p("cd"))` emits `<p("x")>` closed on both sides, a valid payload -/
+example :
+    let nt (name : String) (isText inl : Bool) (dfa : Array DfaState) : NodeType :=
+      { name := name, isText := isText, isInline := isText, isLeaf := isText, isAtom := isText,
+        inlineContent := inl, isolating := false, defining := false, code := false,
+        dfa := dfa, markSet := none, attrs := [] }
+    let S : Schema := { nodes := #[nt "doc" false false #[⟨false, [(1, 1)]⟩, ⟨true, [(1, 1)]⟩],
+                                   nt "paragraph" false true #[⟨true, [(2, 0)]⟩],
+                                   nt "text" true false #[⟨true, []⟩]],
+                        marks := #[], top := 0, textTy := 2 }
+    let doc := Node.elem 0 [] [] [.elem 1 [] [] [.text [97, 98] []], .elem 1 [] [] [.text [99, 100] []]]
+    let sl : Slice := ⟨[.text [120] []], 0, 0⟩
+    detB S = true ∧ S.fillersOKB = true ∧ S.wrapOKB = true ∧ S.labelsOKB = true ∧ PM.FromDom.leafOkB S = true ∧
+    textStableC S = true ∧ S.closableB = true ∧ sl.inlineLeaves S = true ∧ sl.closedValid S = true ∧
+    S.checkNode doc = true ∧ S.nodeAttrsOK doc = true ∧
+    (match replaceStep S doc 4 4 sl with
+     | .ok (some (.replace 4 4 sl' _)) =>
+       sl' == ⟨[.elem 1 [] [] [.text [120] []]], 0, 0⟩
+     | _ => false) = true ∧
+    -- `openValid S 0 0` of that slice
+    S.checkKids [.elem 1 [] [] [.text [120] []]] = true := by decide +kernel
+
+/-- the guard `closableB` is needed: with figure content `img? | text+ img` (`img` with a required attribute, so not
+    generatable) every other hypothesis of `insertInline_emits_valid_payload` holds, and typing `"x"` in front of
+    `doc(figure())` emits `<figure("x")>` — `close_frontier_node` found no filling and closed the wrapper short of
+    its `img`: not a valid payload.  (The real `Schema(...)` refuses this content expression: `check_for_dead_ends`
+    raises SyntaxError "Only non-generatable nodes (img) in a required position"; replayed on /repo.) -/
+example :
+    let nt (name : String) (isText inl isLeaf : Bool) (dfa : Array DfaState) (attrs : List AttrDecl) : NodeType :=
+      { name := name, isText := isText, isInline := isText || isLeaf, isLeaf := isLeaf, isAtom := isLeaf,
+        inlineContent := inl, isolating := false, defining := false, code := false,
+        dfa := dfa, markSet := none, attrs := attrs }
+    let S : Schema := { nodes := #[nt "doc" false false false #[⟨false, [(1, 1)]⟩, ⟨true, [(1, 1)]⟩] [],
+                                   nt "figure" false true false
+                                     #[⟨true, [(2, 1), (3, 2)]⟩, ⟨false, [(2, 1), (3, 2)]⟩, ⟨true, []⟩] [],
+                                   nt "text" true false true #[⟨true, []⟩] [],
+                                   nt "img" false false true #[⟨true, []⟩] [⟨"src", false, ""⟩]],
+                        marks := #[], top := 0, textTy := 2 }
+    let doc := Node.elem 0 [] [] [.elem 1 [] [] []]
+    let sl : Slice := ⟨[.text [120] []], 0, 0⟩
+    detB S = true ∧ S.fillersOKB = true ∧ S.wrapOKB = true ∧ S.labelsOKB = true ∧ PM.FromDom.leafOkB S = true ∧
+    textStableC S = true ∧ S.closableB = false ∧ sl.inlineLeaves S = true ∧ sl.closedValid S = true ∧
+    S.checkNode doc = true ∧ S.nodeAttrsOK doc = true ∧
+    (match replaceStep S doc 0 0 sl with
+     | .ok (some (.replace 0 0 sl' _)) => sl' == ⟨[.elem 1 [] [] [.text [120] []]], 0, 0⟩
+     | _ => false) = true ∧
+    S.checkKids [.elem 1 [] [] [.text [120] []]] = false := by decide +kernel
+
+/-- **`fit_emits_valid_payload_of_inv`** — payload validity of the emitted step for **every** request, reduced to one
+    invariant of the loop: if the loop of `fit` ends with `placed` and the frontier in step and with
+    `FitState.validB` (PM/FitGuards.lean, decidable — the Boolean form of `VInv`: below a ghost level the chain of the
+    document's nodes; from there on valid closed children, open last children with canonical marks and the type
+    of the next frontier entry, and at the levels the Fitter opened marks the type allows and a match that is the
+    automaton state after all children), then the payload is valid: `close` only closes levels (each closed
+    node completed to valid content, `closableB`), adds the close level's filling and re-opens nodes with valid
+    fillers.  `fitEndInv S doc f t sl` evaluates both at the end of the loop (`none` when the Fitter is not
+    reached); the driver evaluates it on every generated request (op `fitEmit`, counters "validity invariant at
+    the end of the loop").  It is proved to hold for deletions and closed slices of valid leaf nodes
+    (`delete_emits_valid_payload`, `insertInline_emits_valid_payload`).  What remains for the unconditional
+    `fit_emits_valid_payload` is its invariance under `place_nodes` when the slice is open: `close_node_start`'s
+    results and the levels pushed for the open end (`pushOpenEnd`). -/
+theorem fit_emits_valid_payload_of_inv (S : Schema) (hdet : detB S = true) (hfill : S.fillersOKB = true)
+    (hleaf : PM.FromDom.leafOkB S = true) (hts : textStableC S = true) (hcl : S.closableB = true)
+    (doc : Node) (f t : Nat) (sl : Slice) (hslv : openValid S sl.openStart sl.openEnd sl.content = true)
+    (hattrs : S.nodeAttrsOK doc = true) (st : Step) (h : replaceStep S doc f t sl = .ok (some st))
+    (hend : fitEndInv S doc f t sl ≠ some false) :
+    ∃ sl', st.sliceOf = some sl' ∧ openValid S sl'.openStart sl'.openEnd sl'.content = true :=
+  replaceStep_valid_of_inv S (detS_of_detB S hdet) (fillersOK_of_B S hfill) (PM.FromDom.leafOk_of_B S hleaf)
+    (textStableP_of_C S hts) (closable_of_B S hcl) doc f t sl hslv hattrs st h hend
+
+/-- the hypotheses are satisfiable on a run that opens the slice and pushes its open end: pasting the closed
+    paragraph `p("x")` into the paragraph of `doc(p("ab"))` at position 2 (the run of the example of `fit_emits_wf`) -/
+example :
+    let nt (name : String) (isText inl : Bool) (dfa : Array DfaState) : NodeType :=
+      { name := name, isText := isText, isInline := isText, isLeaf := isText, isAtom := isText,
+        inlineContent := inl, isolating := false, defining := false, code := false,
+        dfa := dfa, markSet := none, attrs := [] }
+    let S : Schema := { nodes := #[nt "doc" false false #[⟨false, [(1, 1)]⟩, ⟨true, [(1, 1)]⟩],
+                                   nt "paragraph" false true #[⟨true, [(2, 0)]⟩],
+                                   nt "text" true false #[⟨true, []⟩]],
+                        marks := #[], top := 0, textTy := 2 }
+    let doc := Node.elem 0 [] [] [.elem 1 [] [] [.text [97, 98] []]]
+    let sl : Slice := ⟨[.elem 1 [] [] [.text [120] []]], 0, 0⟩
+    S.closableB = true ∧ S.checkKids sl.content = true ∧ fitEndInv S doc 2 2 sl = some true := by decide +kernel
 
 /-- **`coherent_invariant`** — the key invariant `FitState.coherentB` (with the ghost level) is an invariant
     of the loop of `fit` (Proofs/FitCoherent.lean, `Coh` = the proposition behind the Boolean):
